@@ -6,6 +6,11 @@ import GoSQLXModel.Model.Pool
 import GoSQLXModel.Gen.AstTables
 import GoSQLXModel.Gen.Produced
 import GoSQLXModel.Gen.Known
+import GoSQLXModel.Model.CallGraph
+import GoSQLXModel.Gen.ParserGraph
+import GoSQLXModel.Gen.TokenizerGraph
+import GoSQLXModel.Gen.Limits
+import GoSQLXModel.Props.C02
 import GoSQLXModel.Props.C09
 import GoSQLXModel.Props.C14
 import GoSQLXModel.Driver.Ops
